@@ -47,6 +47,15 @@ func init() {
 		return s
 	})
 	reg("Float64", func(fr *frame, a []value) value {
+		if g, ok := fr.i.params["GRID"]; ok && g >= 0 {
+			r := fr.i.params["GRIDMAG"]
+			if r == 0 {
+				r = 36
+			}
+			s, n := fr.i.x.freshGrid(r)
+			fr.i.x.res.Draws = append(fr.i.x.res.Draws, Draw{Kind: "f64", Term: n, N: g + 1})
+			return s
+		}
 		s := fr.i.x.fresh("f", sF64, 0)
 		fr.i.x.res.Draws = append(fr.i.x.res.Draws, Draw{Kind: "f64", Term: s.t})
 		return s
@@ -96,6 +105,9 @@ func init() {
 	})
 	reg("IsIntegral", func(fr *frame, a []value) value {
 		f := asTerm(a[0])
+		if f.k == sReal {
+			return simplifyBool(mkBool(realIsInt(f.t)))
+		}
 		return simplifyBool(mkBool("(fp.eq " + f.t + " (fp.roundToIntegral RTZ " + f.t + "))"))
 	})
 	// exact comparisons between an int64 and a float64 (reference-model helpers):
@@ -109,6 +121,12 @@ func init() {
 	reg("UintLtF", func(fr *frame, a []value) value { return simplifyBool(uintCmpF(asTerm(a[0]), asTerm(a[1]), "lt")) })
 	reg("UintGtF", func(fr *frame, a []value) value { return simplifyBool(uintCmpF(asTerm(a[0]), asTerm(a[1]), "gt")) })
 
+	reg("CeilI", func(fr *frame, a []value) value {
+		return sym{sBV, 64, "((_ fp.to_sbv 64) RTP " + asTerm(a[0]).t + ")"}
+	})
+	reg("FloorI", func(fr *frame, a []value) value {
+		return sym{sBV, 64, "((_ fp.to_sbv 64) RTN " + asTerm(a[0]).t + ")"}
+	})
 	reg("Check", func(fr *frame, a []value) value {
 		var devs []devCond
 		if len(a) > 2 {
@@ -122,6 +140,7 @@ func init() {
 		return nil
 	})
 	reg("Cover", func(fr *frame, a []value) value {
+		fr.i.x.settle()
 		fr.i.x.res.Covers = append(fr.i.x.res.Covers, a[0].(string))
 		return nil
 	})
